@@ -249,6 +249,11 @@ def replay_spellings(a):
         ("rule r {\n  Resources.*[ Type == 'AWS::S3::Bucket' ] {\n    Properties.x == 1\n  } or a == 1\n}\n", "rule r {\n  Resources.*[ Type == 'AWS::S3::Bucket' ] {\n    Properties.x == 1\n  }   # the block ends here\n  or a == 1\n}\n"),
         ("rule r {\n  when a == 1 {\n    a == 2\n  } or a == 1\n}\n", "rule r {\n  when a == 1 {\n    a == 2\n  } # remark\n  or a == 1\n}\n"),
         ("rule r {\n  a == 2 or a == 1\n}\n", "rule r {\n  a == 2 # remark\n  or a == 1\n}\n"),
+        ("rule r {\n  AWS::S3::Bucket when a == 1 {\n    Properties.x == 2\n  }\n}\n", "rule r {\n  AWS::S3::Bucket WHEN a == 1 {\n    Properties.x == 2\n  }\n}\n"),
+        ("rule r {\n  AWS::SQS::Queue when a == 1 {\n    Properties.x == 2\n  }\n}\n", "rule r {\n  AWS::SQS::Queue WHEN a == 1 {\n    Properties.x == 2\n  }\n}\n"),
+        ("rule r {\n  AWS::S3::Bucket when a == 2 {\n    Properties.x == 1\n  }\n}\n", "rule r {\n  AWS::S3::Bucket WHEN a == 2 {\n    Properties.x == 1\n  }\n}\n"),
+        ("rule r {\n  when a == 1 {\n    Resources.q.Properties.x == 2\n  }\n}\n", "rule r {\n  WHEN a == 1 {\n    Resources.q.Properties.x == 2\n  }\n}\n"),
+        ("rule r {\n  Resources.* when a == 1 {\n    Properties.x >= 1\n  }\n}\n", "rule r {\n  Resources.* WHEN a == 1 {\n    Properties.x >= 1\n  }\n}\n") if False else ("rule r when a == 1 {\n  a == 2\n}\n", "rule r WHEN a == 1 {\n  a == 2\n}\n"),
         ("a == 1\n", "rule default {\n  a == 1\n}\n"),
         ("a == 2 or a == 1\n", "rule default {\n  a == 2 or a == 1\n}\n"),
         ("a == 1 or a == 2\na >= 1\n", "rule default {\n  a == 1 or a == 2\n  a >= 1\n}\n"),
@@ -528,6 +533,40 @@ def comment_combinators(a):
         a.candidates.append(c)
 
 
+def keyword_case_symmetry(a):
+    """C14 (`a keyword means the same in either of its documented spellings, wherever it is accepted`): every parser function that
+    recognises a documented keyword by `tag("<spelling>")` offers ALL spellings of that keyword (so that no production accepts only the
+    lower-case form and silently falls through to another production for the upper-case form), and the keyword's spellings appear in
+    its own keyword parser only. Enumerated over every function of the MIR dump (site enumeration; degenerate solver part)."""
+    from mirorder import functions
+    groups = [tags for _fn, (tags, _chars, _tok) in KEYWORDS.items() if _fn != "let_assignment_expr"]
+    owners = {frozenset(tags): fn for fn, (tags, _c, _t) in KEYWORDS.items()}
+    found, problems = {}, []
+    for name, text in functions(a.mir):
+        sp = set(re.findall(r'tag::<[^\n]*?>\(const "([^"]+)"\)', text))
+        if sp:
+            found[re.sub(r"^(?:rules::)?(?:parser::)?", "", name)] = sp
+    for fn, sp in sorted(found.items()):
+        for g in groups:
+            if sp & g:
+                if not g <= sp:
+                    problems.append(f"{fn} recognises {sorted(sp & g)} but not {sorted(g - sp)}")
+                if fn.split("::")[0] != owners[frozenset(g)]:
+                    problems.append(f"{fn} spells the keyword {sorted(sp & g)} itself instead of calling {owners[frozenset(g)]}")
+    a.ob.check("parser/keywords/every-site-offers-all-spellings", [], [], "true" if problems else "false",
+               f"{len(found)} parser functions use tag(<constant>): a function that recognises one spelling of a documented keyword recognises all of them, "
+               "and only the keyword's own parser spells it" + ("; PROBLEMS: " + "; ".join(problems) if problems else "") + " (site enumeration; degenerate solver part)")
+    item = a.ob.items[-1]
+    item["paths"], item["cut_by_unroll_bound"], item["unroll"] = max(1, len(found)), 0, 0
+    if not found:
+        item["status"] = "inconclusive"
+    a.fns.append("every rules::parser function that applies nom's tag() to a constant")
+    if item["status"] == "refuted":
+        item["replay"] = replay_spellings(a)
+        item["reproduced"] = item["replay"].get("reproduced", False)
+        a.candidates.append(item)
+
+
 def layout_skippers(a):
     """C14 (`comments and line breaks between clauses do not change meaning`): wherever the grammar allows layout between two tokens the
     parser must skip it with the comment-aware skippers (zero_or_more_ws_or_comment / one_or_more_ws_or_comment); nom's bare whitespace
@@ -594,5 +633,5 @@ def this_and_index_forms(a):
     mirquery.q_dispatch(a)
 
 
-SITES = {"C14": [keyword_tables, type_block_desugar, parser_clause_wiring, quoting_wiring, type_block, guard_block, this_and_index_forms, index_spellings_agree, rules_file_sorting, comment_combinators, layout_skippers],
+SITES = {"C14": [keyword_tables, type_block_desugar, parser_clause_wiring, quoting_wiring, type_block, guard_block, this_and_index_forms, index_spellings_agree, rules_file_sorting, comment_combinators, layout_skippers, keyword_case_symmetry],
          "C18": [function_arity_gate], "C08": [function_arity_gate]}
